@@ -43,6 +43,9 @@ class Unit(object):
         self.result = result                 # value spec of the result (for call-by-contract)
         self.callee_units = callee_units or {}   # (class, method) -> Unit : call sites use that unit's contract
         self.defaults = {}
+        self.special_factories = []              # [executor -> {name: special form}] (lemma instantiation forms)
+        self.exit_ghost = ""                     # ghost code run at every normal exit (with `result`) before the ensures
+        self.var_kinds = {}                      # program variables whose dynamic type changes (int <-> str): kept as PyVal
         self.append_hooks = {}                   # list variable name -> ghost code run per appended element (`appended_`)
         self.merge_ifs = False                   # join the two arms of an `if` into one state (ite) when both fall through
         self.spec_funcs = {}                     # name -> z3 function usable in contract expressions
@@ -126,6 +129,8 @@ class Executor(EvalMixin, MethodsMixin, ExecMixin):
             self.special_forms[dn] = self.make_macro(dn, dargs, parse_expr(dbody))
         for fname, zf in unit.spec_funcs.items():
             self.special_forms[fname] = self.make_specfun(zf)
+        for fac in unit.special_factories:
+            self.special_forms.update(fac(self))
         self.assumptions = set()
         self.uses_join = False
         self._mod_cache = {}
@@ -232,7 +237,12 @@ class Executor(EvalMixin, MethodsMixin, ExecMixin):
 
     def make_specfun(self, zf):
         def sf(node, st):
-            args = [self.ev(a, st).e for a in node.args]
+            args = [getattr(v_, "val", v_).e for v_ in (self.ev(a, st) for a in node.args)]
+            for i_, a_ in enumerate(args):
+                if a_.sort() == PyVal and zf.domain(i_) == StrS:
+                    args[i_] = PyVal.ps(a_)
+                elif a_.sort() == PyVal and zf.domain(i_) == IntS:
+                    args[i_] = PyVal.pi(a_)
             r = zf(*args) if args else zf
             if z3.is_expr(r):
                 srt = r.sort()
@@ -432,11 +442,24 @@ class Executor(EvalMixin, MethodsMixin, ExecMixin):
             if spec == "file":
                 out = st.alloc(HList("str", z3.IntVal(0), z3.K(IntS, z3.StringVal(""))))
                 return st.alloc(HObj("file", {"out": out}))
+            if spec == "objdict":
+                return st.alloc(HObj("ObjDict", {}))
             if spec == "opaque":
                 return st.alloc(HOpaque())
             if spec == "emptylist":
                 return st.alloc(HCList([]))
             raise ContractError("param spec %r" % spec)
+        if spec[0] == "reclist":
+            n = z3.Int(fresh_name(nm + "_len"))
+            st.assume(n >= 0)
+            cols = {}
+            for fld, k in spec[1].items():
+                if k.startswith("opt:"):
+                    cols[fld] = ("opt", k[4:], z3.Array(fresh_name("%s_%s_none" % (nm, fld)), IntS, BoolS),
+                                 z3.Array(fresh_name("%s_%s" % (nm, fld)), IntS, SORTS[k[4:]]))
+                else:
+                    cols[fld] = ("val", k, None, z3.Array(fresh_name("%s_%s" % (nm, fld)), IntS, SORTS[k]))
+            return st.alloc(HRecList(n, cols))
         if spec[0] == "obj":
             f = dict((k, self.make_value(v, st, nm + "_" + k)) for k, v in spec[2].items())
             return st.alloc(HObj(spec[1], f))
@@ -502,6 +525,8 @@ class Executor(EvalMixin, MethodsMixin, ExecMixin):
                 continue
             self.exits["return"] += 1
             s2.env["result"] = val if kind == RET else VNone()
+            if u.exit_ghost:
+                self.run_ghost(parse_code(u.exit_ghost), s2, self.fn)
             self.in_contract = True
             self.cur_line = self.fn.end_lineno
             for i, e in enumerate(u.ensures):
